@@ -274,6 +274,69 @@ def check_alter(case):
     return [], out
 
 
+# replacement expressions for alter_code(replacements=...): (label, source text, fits every expression slot as unparsed?)
+EXPR_POOL = [
+    ("name", "vf_marker", True), ("call", "vf_marker(1)", True), ("attr", "vf_marker.a", True), ("subscript", "vf_marker[0]", True),
+    ("genexp", "(v for v in vf_marker)", True), ("list", "[vf_marker, 1]", True),
+    ("binop", "vf_marker + 1", False), ("ifexp", "vf_marker if a else b", False), ("lambda", "lambda: vf_marker", False),
+    ("walrus", "(vf_marker := 1)", False), ("yield", "(yield vf_marker)", False), ("await", "await vf_marker", False),
+    ("tuple", "(vf_marker, 1)", False), ("starred", "[*vf_marker][0]", False), ("boolop", "vf_marker or 1", False), ("not", "not vf_marker", False),
+    ("compare", "vf_marker < 1", False),
+]
+
+
+def check_alter_expr(case):
+    """processing.alter_code(replacements={expression node: expression node}) - the path of the rules that replace through
+    _replace_nodes.  Replacements whose bare unparsed text does not fit the slot (a walrus or a yield without parentheses, a
+    lambda in a tight slot) must be rolled back or parenthesised, never spliced into an unparsable result; an atom-like
+    replacement must give exactly the source tree with that node replaced."""
+    processing = env.mod("processing")
+    core = env.mod("core")
+    src = case["src"]
+    env.clear_caches()
+    root = core.parse(src)
+    in_fstring = {id(n) for j in ast.walk(root) if isinstance(j, ast.JoinedStr) for n in ast.walk(j)}
+    kinds = (ast.Name, ast.Call, ast.BinOp, ast.Attribute, ast.Subscript, ast.List, ast.Compare, ast.BoolOp, ast.UnaryOp, ast.Dict, ast.Set, ast.IfExp)
+    nodes = [n for n in ast.walk(root) if isinstance(n, kinds) and id(n) not in in_fstring and isinstance(getattr(n, "ctx", ast.Load()), ast.Load)]
+    nodes.sort(key=lambda n: (n.lineno, n.col_offset, n.end_lineno, n.end_col_offset, type(n).__name__))
+    if not nodes:
+        return [], None
+    old = nodes[case["node"] % len(nodes)]
+    label, text, atom = EXPR_POOL[case["new"] % len(EXPR_POOL)]
+    new = ast.parse(text, mode="eval").body
+    if label == "starred":
+        new = new.value.elts[0]  # a bare Starred node: fits only inside calls and displays
+    status, out, _ = progcheck.run_tool(processing.alter_code, src, root, replacements={old: new})
+    detail = f"replace {ast.unparse(old)!r} (line {old.lineno}) by {label} {ast.unparse(new)!r}\n--- input\n{src[:900]}\n--- output\n{str(out)[:900]}"
+    if status == "crash" and isinstance(out, SyntaxError):
+        return [{"bucket": "alter_code:expr:unparsable-intermediate", "case": case, "detail": detail}], None
+    if status != "ok" or not isinstance(out, str):
+        return [], None
+    if not parses(out):
+        return [{"bucket": "alter_code:expr:invalid-output", "case": case, "detail": detail}], out
+    if atom and out != src:
+        import copy
+        want = copy.deepcopy(root)
+        pos = (old.lineno, old.col_offset, old.end_lineno, old.end_col_offset, type(old))
+        done = []
+
+        class Sub(ast.NodeTransformer):
+            def generic_visit(self, node):
+                if not done and hasattr(node, "lineno") and (node.lineno, node.col_offset, node.end_lineno, node.end_col_offset, type(node)) == pos:
+                    done.append(1)
+                    return copy.deepcopy(new)
+                return super().generic_visit(node)
+
+        want = Sub().visit(want)
+        try:
+            same = ast.dump(ast.parse(out)) == ast.dump(ast.parse(ast.unparse(want)))
+        except (SyntaxError, ValueError):
+            same = True
+        if not same:
+            return [{"bucket": "alter_code:expr:other-code-changed", "case": case, "detail": detail}], out
+    return [], out
+
+
 def short_statement_removed(case):
     return case.get("kind") == "alter" and bool(case.get("allow_short"))
 
@@ -287,6 +350,8 @@ def evaluate(case):
         return check_synthetic(case)[0]
     if k == "alter":
         return check_alter(case)[0]
+    if k == "alter_expr":
+        return check_alter_expr(case)[0]
     if k == "format":
         return check_format(case)[0]
     if k == "rule":
@@ -333,6 +398,13 @@ def run_shard(spec):
                 case = {"kind": "synthetic", "c10": data.draw(c10.rewrite_sets())}
                 fails, out = check_synthetic(case)
                 acc.case(case, True, ["synthetic:" + ("invalid-replacement" if any(r["n"] == "invalid" for r in case["c10"]["rewrites"]) else "valid-only")])
+                acc.fails(fails)
+            elif data.draw(st.booleans()):
+                src = data.draw(st.sampled_from(alter_pool))
+                case = {"kind": "alter_expr", "src": src, "node": data.draw(st.integers(0, 400)), "new": data.draw(st.integers(0, len(EXPR_POOL) - 1))}
+                fails, out = check_alter_expr(case)
+                cls = "rolled-back-or-none" if out is None or out == src else "applied"
+                acc.case(case, out is not None, [f"alter_expr:{EXPR_POOL[case['new']][0]}:{cls}"], sample={"src": src[:200], "node": case["node"], "new": EXPR_POOL[case["new"]][1]})
                 acc.fails(fails)
             else:
                 src = data.draw(st.sampled_from(alter_pool))
